@@ -114,9 +114,12 @@ class Fill(CellModifierInput):
         data = value["data"]
         if "(" in data.nodes:
             get_universe(value)
-            trans_data = value["data"][
-                list(value["data"]).index("(") + 1 : list(value["data"]).index(")") - 1
-            ]
+            nodes = list(value["data"])
+            start = nodes.index("(") + 1
+            # blanks or comments may follow the opening parenthesis
+            while isinstance(nodes[start], syntax_node.PaddingNode) and nodes[start] != ")":
+                start += 1
+            trans_data = value["data"][start : nodes.index(")") - 1]
             if len(trans_data) == 1:
                 try:
                     transform = trans_data[0]
